@@ -30,7 +30,16 @@ def proj(c):
         s = c[a]
         views.append([a, [[a, float(u.segment.start), float(u.segment.end), u.annotation] for u in s]])
     lo, hi = c.bounds
-    return {"ann": anns, "units": units, "cats": list(c.categories), "lo": float(lo), "hi": float(hi),
+    # derived observables (beyond the listed properties): only where they are defined (labelled units, at least one unit)
+    weights, wok = [], 0
+    if units and all(u[3] is not None for u in units):
+        try:
+            weights = [[k, int(round(float(v) * 1000000))] for k, v in c.category_weights.items()]
+            wok = 1
+        except Exception:
+            wok = 2
+    derived = {"nann": int(c.num_annotators), "maxper": int(c.max_num_annotations_per_annotator), "weights": weights, "wok": wok}
+    return {"derived": derived,"ann": anns, "units": units, "cats": list(c.categories), "lo": float(lo), "hi": float(hi),
             "n": int(c.num_units), "len": len(c), "bool": 1 if c else 0, "bws": bws_of(c), "views": views}
 
 
@@ -83,6 +92,8 @@ class Encoder:
         return {"ann": [self.a(x) for x in p["ann"]], "units": [self.unit(u) for u in p["units"]],
                 "cats": [self.l(x) for x in p["cats"]], "lo": self.t(p["lo"]), "hi": self.t(p["hi"]),
                 "n": p["n"], "len": p["len"], "bool": p["bool"], "bws": p["bws"],
+                "derived": {"nann": p["derived"]["nann"], "maxper": p["derived"]["maxper"], "wok": p["derived"]["wok"],
+                            "weights": [[self.l(k), w] for k, w in p["derived"]["weights"]]},
                 "views": [[self.a(a), [self.unit(u) for u in vs]] for a, vs in p["views"]]}
 
     def event(self, e):
